@@ -64,6 +64,14 @@ func libraryFiles(dir string) []baseFile {
 			ops = append(ops, hist.Op{K: "group", Path: "/grp"}, hist.Op{K: "attr", Path: "/grp", Name: "ga", A: &hist.AttrVal{Kind: "f32", Seed: 7}})
 			return ops
 		}()},
+		{"lib-dense-tail-v2", 2, func() []hist.Op {
+			// the dense attribute storage (heap, B-tree) is the last thing in the file
+			ops := []hist.Op{{K: "group", Path: "/g"}, {K: "dataset", Path: "/g/t", D: &hist.DSpec{Type: "f32", Dims: []uint64{3, 2}}}, {K: "write", Path: "/g/t", Seed: 5, Mode: 1}}
+			for i := 0; i < 12; i++ {
+				ops = append(ops, hist.Op{K: "attr", Path: "/g/t", Name: fmt.Sprintf("a%02d", i), A: &hist.AttrVal{Kind: []string{"i32", "str", "f64"}[i%3], N: 7, Seed: i + 20}})
+			}
+			return ops
+		}()},
 	}
 	for _, s := range specs {
 		p := filepath.Join(dir, s.name+".h5")
@@ -184,6 +192,9 @@ func refines(intact, tr *obs.File) []hist.Problem {
 		if dt.CompoundErr == "" && !(di.CompoundErr == "" && reflect.DeepEqual(dt.Compound, di.Compound)) {
 			add("compound-differs", p, "ReadCompound() returned values that differ from the intact file's")
 		}
+		if dt.Slice != "" && dt.SliceErr == "" && !(di.SliceErr == "" && dt.Slice == di.Slice) {
+			add("slice-differs", p, "ReadSlice/ReadHyperslab returned values that differ from the intact file's")
+		}
 		if dt.AttrsErr == "" && di.AttrsErr == "" {
 			ps = append(ps, attrRefines(p, di.Attrs, dt.Attrs)...)
 		}
@@ -224,7 +235,7 @@ func intactObs(name string, data []byte) *obs.File {
 	}
 	p := filepath.Join(vt.GetEnv().Scratch, "intact.h5")
 	_ = os.WriteFile(p, data, 0o644)
-	o := obs.Read(p, obs.Options{})
+	o := obs.Read(p, obs.Options{Slices: true})
 	os.Remove(p)
 	intactCache.Store(name, o)
 	return o
@@ -244,7 +255,7 @@ func runTrunc(c TruncCase) vt.Verdict {
 		return vt.Skipped("cannot write scratch file")
 	}
 	defer os.Remove(p)
-	tr := obs.Read(p, obs.Options{})
+	tr := obs.Read(p, obs.Options{Slices: true})
 	ps := refines(intact, tr)
 	var known *vt.Verdict
 	for _, pr := range ps {
@@ -288,7 +299,11 @@ func truncBody(t *testing.T) {
 	for _, b := range cf {
 		have[b.Name] = true
 	}
-	for _, name := range []string{"simple_float64.h5", "hdf5_official/thlink.h5", "reference/fill18.h5"} {
+	// (C-library files keep raw data behind the metadata and use version-1 headers with continuation blocks, which the library's own
+	// files do not; every length of these small files is tried in both tiers)
+	fixed := map[string]bool{}
+	for _, name := range []string{"simple_float64.h5", "hdf5_official/thlink.h5", "reference/fill18.h5", "with_attributes.h5", "matrix_2x3.h5", "vlen_strings.h5"} {
+		fixed[name] = true
 		if !have[name] {
 			if b, err := os.ReadFile(filepath.Join("/repo/testdata", name)); err == nil && len(b) > 0 {
 				cf = append(cf, baseFile{name, b})
@@ -310,18 +325,36 @@ func truncBody(t *testing.T) {
 		// which lengths: thorough = all for files <= 24 KiB, else structure boundaries +-1 and a sample
 		lens := map[int]bool{}
 		size := len(b.Data)
-		if vt.Thorough() && size <= 64*1024 {
+		if (vt.Thorough() && size <= 64*1024) || ((fixed[b.Name] || strings.HasPrefix(b.Name, "lib-")) && size <= 16*1024) {
 			for l := 0; l < size; l++ {
 				lens[l] = true
 			}
 		} else {
 			if f, _ := indep.Decode(b.Data, indep.TolerateAll()); f != nil {
+				marks := append([]uint64{}, f.Marks...)
 				for _, ex := range f.Extents {
-					for _, x := range []uint64{ex.Start, ex.End} {
-						for d := -1; d <= 1; d++ {
-							if l := int(x) + d; l >= 0 && l < size {
-								lens[l] = true
-							}
+					marks = append(marks, ex.Start, ex.End)
+					// every cut inside a small structure (headers, nodes); the first 64 and last 16 bytes of larger ones
+					if n := ex.End - ex.Start; n <= 256 {
+						for x := ex.Start + 2; x+1 < ex.End; x += 3 { // marks are widened by +-1 below
+							marks = append(marks, x)
+						}
+					} else {
+						for x := ex.Start + 2; x < ex.Start+64; x += 3 {
+							marks = append(marks, x)
+						}
+						for x := ex.End - 15; x+1 < ex.End; x += 3 {
+							marks = append(marks, x)
+						}
+					}
+				}
+				sort.Slice(marks, func(i, j int) bool { return marks[i] < marks[j] })
+				// all structure and message boundaries, +-1; thinned deterministically only when there are very many
+				step := len(marks)/vt.N(1500, 20000) + 1
+				for i := int(vt.ShardSeed("trunc-marks-"+b.Name) % uint64(step)); i < len(marks); i += step {
+					for d := -1; d <= 1; d++ {
+						if l := int(marks[i]) + d; l >= 0 && l < size {
+							lens[l] = true
 						}
 					}
 				}
@@ -331,19 +364,6 @@ func truncBody(t *testing.T) {
 			for i := 0; i < k; i++ {
 				s = s*6364136223846793005 + 1442695040888963407
 				lens[int((s>>11)%uint64(size))] = true
-			}
-			if len(lens) > vt.N(300, 4000) {
-				// keep a deterministic subset
-				ks := make([]int, 0, len(lens))
-				for l := range lens {
-					ks = append(ks, l)
-				}
-				sort.Ints(ks)
-				lens = map[int]bool{}
-				step := len(ks)/vt.N(300, 4000) + 1
-				for i := 0; i < len(ks); i += step {
-					lens[ks[i]] = true
-				}
 			}
 		}
 		ls := make([]int, 0, len(lens))
